@@ -51,8 +51,60 @@ Example C05_example : (* a machine with 10 % loss either way; PTI step of 200 kW
   (Qred (elec_final ts te c), Qred (shaft_final ts te c)) = (-300, -1000 # 3).
 Proof. vm_compute. repeat split. Qed.
 
+(* ------------------------------------------------------------------------------------------------
+   The per-step formulas above are what the COMBINED BALANCE COMPUTES on one shared PTI/PTO object: the hybrid
+   machine of Model/Machine.v runs the electric balance (Model/ElecBalance.v on the fields as they are), hands
+   the machine's shaft power to the shaft line, runs the shaft balance (Model/Shaft.v), writes both powers back
+   into the shared component, and runs the electric balance again when any step is in full-PTI mode.  For a
+   machine that follows its electrical set-point at every step, whatever the rest of the plant looks like
+   (any switchboards, breakers, sources, loads, engines), the two powers the shared object ends up with are
+   elec_final / shaft_final of the step's inputs.  (Proofs/HybridMachineProofs.v) *)
+From Feems Require Import Model.Bus Model.ElecBalance Model.Shaft Model.Machine Proofs.HybridMachineProofs.
+
+Theorem C05_combined_balance_computes_the_step_formulas conv to_elec s s' m p :
+  hbalance conv to_elec s = Some s' ->
+  shared_comp s = Some m -> c_kind (m_c m) = PtiPto ->
+  m_lsm m = repeat 1 (npoints (h_elec s)) -> (0 < npoints (h_elec s))%nat ->
+  l_machine (h_line s) = Some p -> lpoints (h_line s) = npoints (h_elec s) ->
+  exists p', l_machine (h_line s') = Some p' /\ p_full p' = p_full p /\
+    forall t, (t < npoints (h_elec s))%nat ->
+      let i := {| h_e0 := numq (nth t (m_pin m) NonFinite); h_load := load_sum (line_at (h_line s) t);
+                  h_full := nth t (p_full p) false; h_any_full := existsb (fun b => b) (p_full p); h_bal := false |} in
+      nth t (p_elec p') 0 = elec_final (ts conv (h_j s)) to_elec i /\
+      nth t (p_shaft p') 0 = shaft_final (ts conv (h_j s)) to_elec i.
+Proof. apply hbalance_fields. Qed.
+
+(* Non-vacuity: a genset, a hotel load and a PTI/PTO (10 % loss either way) on one switchboard; a shaft line with one
+   engine and a propeller; PTI step, PTO step, full-PTI step.  The combined balance returns; the shared machine ends
+   with the step formulas' values. *)
+Definition c05_conv (j : nat) (x : num) : num :=
+  match x with Fin e => Fin (if Qle_bool e 0 then e / (9 # 10) else e * (9 # 10)) | NonFinite => NonFinite end.
+Definition c05_to_elec (sft : Q) : Q := if Qle_bool sft 0 then sft * (9 # 10) else sft / (9 # 10).
+Definition c05_state : hstate :=
+  {| h_elec := {| e_comps :=
+        [ {| m_c := {| c_swb := 1; c_kind := Source; c_rated := 2000 |}; m_status := [true; true; true]; m_lsm := [0; 0; 0]; m_pin := []; m_pout := [] |};
+          {| m_c := {| c_swb := 1; c_kind := PtiPto; c_rated := 1000 |}; m_status := [true; true; true]; m_lsm := [1; 1; 1];
+             m_pin := [Fin 200; Fin (-300); Fin 0]; m_pout := [] |};
+          {| m_c := {| c_swb := 1; c_kind := Consumer; c_rated := 1500 |}; m_status := []; m_lsm := []; m_pin := [Fin 500; Fin 600; Fin 400]; m_pout := [] |} ];
+        e_edges := []; e_swbs := [1%nat]; e_sts := [[]; []; []] |};
+     h_line := {| l_lds := [[1000; 800; 900]]; l_machine := Some {| p_shaft := []; p_full := [false; false; true]; p_elec := [] |};
+                  l_engs := [{| g_rated := 3000; g_status := [true; true; true]; g_pout := [] |}] |};
+     h_j := 1 |}.
+Example C05_combined_example :
+  match hbalance c05_conv c05_to_elec c05_state with
+  | Some s' =>
+      match l_machine (h_line s') with
+      | Some p' => map Qred (p_elec p') = [200; -300; 1000] /\ map Qred (p_shaft p') = [180; -1000 # 3; 900]
+      | None => False
+      end /\
+      map (fun g => map Qred (g_pout g)) (l_engs (h_line s')) = [[820; 3400 # 3; 0]]
+  | None => False
+  end.
+Proof. vm_compute. repeat split. Qed.
+
 Print Assumptions C05_no_full_pti.
 Print Assumptions C05_full_pti.
 Print Assumptions C05_load_sharing_step.
 Print Assumptions C05_both_within_eps.
 Print Assumptions C05_loss.
+Print Assumptions C05_combined_balance_computes_the_step_formulas.
